@@ -115,7 +115,30 @@ Definition functionsb (p : program) (m : mir) : bool :=
 Definition is_const_ity (t : ity) : bool := match t with IScalar (MConst, _) => true | _ => false end.
 (* a program that defines (at top level, hence certainly executed unless an earlier statement
    fails) a function with a literal return type or only literal parameters must be rejected *)
+(* the number of parameters of the function a top-level name is bound to just before the n-th statement *)
+Fixpoint arity_before (ss : list stmt) (f : string) (acc : option nat) (n : nat) : option nat :=
+  match n, ss with
+  | O, _ => acc
+  | S k, s :: r => arity_before r f (match s with
+                                     | SDef g ps _ _ _ => if String.eqb g f then Some (List.length ps) else acc
+                                     | SLet x _ => if String.eqb x f then None else acc
+                                     end) k
+  | S _, [] => acc
+  end.
+(* a top-level call that does not give every parameter exactly one argument (too few, too many) *)
+Definition bad_arity_call (p : program) : bool :=
+  (fix go (ss : list stmt) (i : nat) : bool :=
+     match ss with
+     | [] => false
+     | SLet _ (RCall f args kw) :: r =>
+         match arity_before (p_stmts p) f None i with
+         | Some n => negb (Nat.eqb n (List.length args + List.length kw)) || go r (S i)
+         | None => go r (S i)
+         end
+     | _ :: r => go r (S i)
+     end) (p_stmts p) O.
 Definition c11_must_reject (p : program) : bool :=
   existsb (fun s => match s with
                     | SDef _ ps rt _ _ => is_const_ity rt || forallb (fun q => is_const_ity (snd q)) ps
-                    | _ => false end) (p_stmts p).
+                    | _ => false end) (p_stmts p)
+  || bad_arity_call p.
